@@ -4,5 +4,10 @@ open Biogo.Properties.C09_aff
 #print axioms trace_wf_nwAffine
 #print axioms trace_wf_swAffine
 #print axioms trace_wf_fittedAffine
+#print axioms pair_scores_faithful
+#print axioms pair_scores_faithful_swAffine
+#print axioms pair_scores_swAffine_needs_nonpositive_gaps
+#print axioms pair_scores_faithful_fittedAffine
 #print axioms pair_scores_faithful_partial
-#print axioms pair_scores_not_faithful
+#print axioms legacy_pair_scores_not_faithful
+#print axioms k5_repair_conservative
